@@ -215,6 +215,12 @@ class BuildSystem():
 
             molecule = molecules[mol_idx]
 
+            # ignored molecules are not part of the nonbond_matrix and never built
+            if molecule.mol_name in self.ignore:
+                mol_idx += 1
+                pbar.update(1)
+                continue
+
             if all(["position" in molecule.nodes[node] for node in molecule.nodes]):
                 mol_idx += 1
                 pbar.update(1)
